@@ -66,6 +66,7 @@ func c10Eval(c c10Case) (ok bool, sig, detail string) {
 			}
 			d0 := denOf(loc)
 			obs, dok := refmodel.Den(f.Loc)
+			engine.Outcome(printLoc(f.Loc))
 			if !dok || !obs.Equal(d0) {
 				return false, "not-restored", fmt.Sprintf("%s at i=%d n=%d: %s came back as %s denoting %s, want %s", c.Op, c.I, c.N, loc, printLoc(f.Loc), obs, d0)
 			}
